@@ -76,3 +76,21 @@ Fixpoint starts_of (b : nat) (tr : list event) : nat :=
   | EStart b' :: r => (if (b =? b')%nat then 1 else 0) + starts_of b r
   | _ :: r => starts_of b r
   end.
+
+(* ---- C06 vocabulary (appended by proof-sched-want) ---- *)
+
+(* the wanted part of the graph has no cycle of ordering edges: a rank decreases along them *)
+Definition acyclic_wanted (g : graph) (s : bstates) : Prop :=
+  exists rank : nat -> nat,
+    forall b p, get_state s b <> Unknown -> ordering_producer g b p -> rank p < rank b.
+
+(* file [b] is an ordering input of the step that produces file [a] *)
+Definition ord_edge (g : graph) (a b : nat) : Prop :=
+  exists p, file_input g a = Some p /\ In b (ordering_ins (get_build g p)).
+
+(* consecutive elements are ordering edges *)
+Fixpoint ord_chain (g : graph) (l : list nat) : Prop :=
+  match l with
+  | a :: (b :: _) as r => ord_edge g a b /\ ord_chain g r
+  | _ => True
+  end.
